@@ -632,6 +632,55 @@ func (c *x5Ctl) exec(step map[string]interface{}, args map[string]interface{}) s
 			return x5Event{offs: offs, err: x5ErrClass(err)}
 		})
 		c.waitStop(p, false)
+	case "AppSetBegin":
+		// the follower's replicated append: the offsets come with the data
+		p := c.procs["app"]
+		batch := vList(step, "batch")
+		args["batch"] = step["batch"]
+		if p.busy || len(batch) == 0 {
+			return "Skip"
+		}
+		msgs := []*Message{}
+		for _, b := range batch {
+			msgs = append(msgs, x5Message(vInt(b, "ep"), vStr(b, "key"), vInt(b, "id"), -1))
+		}
+		ms, _, err := newMessageSetFromProto(vInt(batch[0], "off"), 0, msgs, false)
+		if err != nil {
+			c.t.Fatalf("message set: %v", err)
+		}
+		c.spawn(p, func() x5Event {
+			offs, err := c.l.AppendMessageSet(ms)
+			return x5Event{offs: offs, err: x5ErrClass(err)}
+		})
+		c.waitStop(p, lockHeld)
+		if p.at == "running" {
+			a = "Blocked"
+		}
+	case "Reopen":
+		if c.procs["app"].busy || c.procs["trn"].busy || c.procs["cln"].busy {
+			return "Skip"
+		}
+		c.obs = x5Obs{A: "Reopen", Ret: []interface{}{}}
+		func() {
+			defer func() {
+				if x := recover(); x != nil {
+					c.obs.Err = fmt.Sprintf("reopen-panic:%v", x)
+				}
+			}()
+			if err := c.l.Close(); err != nil {
+				c.obs.Err = "close:" + err.Error()
+				return
+			}
+			cl, err := New(x5Opts(c.dir, c))
+			if err != nil {
+				c.obs.Err = "reopen:" + err.Error()
+				return
+			}
+			c.l = cl.(*commitLog)
+		}()
+		for _, r := range c.rds {
+			r.alive, r.c, r.rev, r.pos, r.got = false, false, false, 0, false
+		}
 	case "TrnBegin":
 		p := c.procs["trn"]
 		o := vInt(step, "o")
